@@ -269,10 +269,21 @@ func runC13(r *Run) {
 				fmt.Fprintf(&resp, "Sec-WebSocket-Extensions: %s\r\n", line)
 			}
 		}
+		bigBody := (n+len(rec.key))%3 == 0 && fault == 0 // (a third of the responses carry more than a kilobyte behind the header)
 		if status != 101 && status != 204 {
-			resp.WriteString("Content-Length: 5\r\n\r\nnope!")
+			if bigBody {
+				fmt.Fprintf(&resp, "Content-Length: 3000\r\n\r\n%s", strings.Repeat("error page ", 300)[:3000])
+			} else {
+				resp.WriteString("Content-Length: 5\r\n\r\nnope!")
+			}
 		} else {
 			resp.WriteString("\r\n")
+			if status == 101 && !accept && !dontCare && bigBody && fault == 0 {
+				// a server that starts talking right after its (unacceptable) 101
+				for k := 0; k < 12; k++ {
+					resp.Write(wsref.AppendFrame(nil, wsref.Frame{Fin: true, Opcode: wsref.OpBinary, Payload: make([]byte, 120)}))
+				}
+			}
 		}
 		b := resp.Bytes()
 		if fault != 0 {
@@ -373,6 +384,17 @@ func runC13(r *Run) {
 		opts.HTTPHeader.Set("X-Custom", "custom-value")
 		opts.HTTPHeader.Set("Connection", "keep-alive")
 		opts.HTTPHeader.Set("Sec-WebSocket-Version", "8")
+		// (a caller's own handshake headers must not end up next to Dial's)
+		// (only where Dial has a value of its own to put there,
+		// and not when a later attempt shares this map with other options: there the
+		// caller's lines are the only ones)
+		if mode != websocket.CompressionDisabled && !varyOpts {
+			opts.HTTPHeader.Set("Sec-WebSocket-Extensions", "permessage-deflate; client_max_window_bits")
+		}
+		if len(subs) > 0 && !varyOpts {
+			opts.HTTPHeader.Set("Sec-WebSocket-Protocol", "callers-own")
+		}
+		opts.HTTPHeader.Set("Sec-WebSocket-Key", "Y2FsbGVycy1vd24ta2V5IQ==")
 	}
 	type dialRes struct {
 		c                *websocket.Conn
@@ -496,7 +518,7 @@ func runC13(r *Run) {
 		case websocket.CompressionNoContextTakeover:
 			wantExt = "permessage-deflate;client_no_context_takeover;server_no_context_takeover"
 		}
-		if g := strings.ReplaceAll(h.Get("Sec-Websocket-Extensions"), " ", ""); g != wantExt {
+		if g := strings.ReplaceAll(strings.Join(h.Values("Sec-Websocket-Extensions"), "\n"), " ", ""); g != wantExt {
 			r.Violate("request-extensions", s2, "attempt %d: extension offer %q, mode %d wants %q", i, g, aMode, wantExt)
 		}
 		wantHost := "sim.test"
